@@ -217,9 +217,14 @@ fn main() {
                 _ => lo - rng.unit() as f32 * p * 2.0,
             };
             let r = guard(|| degs(x).wrap(degs(lo), degs(hi)).to_degs());
+            let (ar, lr, hr) = (degs(x).to_rads(), degs(lo).to_rads(), degs(hi).to_rads());
+            let (dd, pp) = (ar - lr, hr - lr);
+            let exact = (dd as f64 == ar as f64 - lr as f64 && pp as f64 == hr as f64 - lr as f64 && pp > 0.0 && (dd as f64 % pp as f64) == 0.0) as u8;
+            let athi = (guard(|| degs(x).wrap(degs(lo), degs(hi)).to_rads()) == Some(hr)) as u8;
             let (pn, rv) = match r { Some(v) => (0, v), None => (1, lo) };
             writeln!(out, "{}", json!({"k": format!("w-{be}-{i}"), "op": "wrap", "be": be, "a": sc(x), "lo": sc(lo), "hi": sc(hi), "r": sc(rv),
-                "below": (rv < lo) as u8, "above": (rv > hi) as u8, "panic": pn})).unwrap();
+                "below": (rv < lo) as u8, "above": (rv > hi) as u8, "panic": pn,
+                "exact": exact, "athi": athi})).unwrap();
         }
         // the radius of to_polar / to_spherical is the vector's length, under this build's square root:
         // magnitudes from 2^-45 (squares still normal numbers) to 2^20
